@@ -466,12 +466,80 @@ def rule_e(R, ctx):
     R.floor("C19.e", "loop insertions at a running index in exported wrappers", n, 2)
 
 
+def rule_f(R, ctx):
+    FFI = ctx.yffi
+    R.rule("C19.f", "R-SIB/R-TABLE option flags: the two conversions between YOptions.flags and yrs::Options agree on which flag "
+                    "constant stands for which option — `From<Options> for YOptions` sets constant K under option field f, and "
+                    "`Into<Options> for YOptions` computes field f from `flags & K`, for the same (f, K) pairs, each constant used for "
+                    "one field only; a copy-pasted mask makes a C-created document run with another option than the same flags mean "
+                    "natively")
+    into = FFI.fn("<yffi::YOptions as std::convert::Into<yrs::Options>>::into")
+    frm = FFI.fn("<yffi::YOptions as std::convert::From<yrs::Options>>::from")
+    vi, vf = FnView(into), FnView(frm)
+    enc = {}
+    for i, j, st in frm.stmts():
+        rv = st["rv"]
+        if rv.get("bin") == "BitOr":
+            k = rv["b"] if isinstance(rv.get("b"), dict) and "k" in rv["b"] else rv["a"]
+            name = k.get("named") or str(k.get("k"))
+            flds = set()
+            for l in vf.guards(i):
+                for x in walk(l.term):
+                    if x[0] == "field" and ".Options." in x[1] or (x[0] == "field" and x[1].startswith("yrs::doc::Options.")) or \
+                            (x[0] == "field" and x[1].rsplit(".", 1)[0].endswith("Options")):
+                        flds.add(x[1].rsplit(".", 1)[-1])
+            for f in flds:
+                enc[f] = name
+    dec = {}
+    for i, j, st in into.stmts():
+        if "agg" in st["rv"] and str(st["rv"]["agg"].get("adt", "")).endswith("Options") and st["rv"]["agg"].get("fields"):
+            for f, o in zip(st["rv"]["agg"]["fields"], st["rv"]["ops"]):
+                t = simp_deep(vi.terms.operand(o, 10))
+                ks = [x for x in walk(t) if x[0] == "bin" and x[1] == "BitAnd"]
+                names = set()
+                for b in ks:
+                    for side in (b[2], b[3]):
+                        sd = simp(side)
+                        if sd[0] == "const" and len(sd) > 2 and sd[2]:
+                            names.add(sd[2])
+                        elif sd[0] == "const":
+                            names.add(str(sd[1]))
+                if names:
+                    dec[f] = sorted(names)
+                elif t[0] == "phi":
+                    # an enum chosen under a flag test (offset_kind): the constants its definitions are guarded by
+                    l0 = o.get("c", o.get("m")) if isinstance(o, dict) else None
+                    r = mir_root(into, o)
+                    if r[0] == "local":
+                        gn = set()
+                        for d in into.defs().get(r[1], []):
+                            for l in vi.guards(d[1]):
+                                for x in walk(l.term):
+                                    if x[0] == "bin" and x[1] == "BitAnd":
+                                        for side in (x[2], x[3]):
+                                            sd = simp(side)
+                                            if sd[0] == "const" and len(sd) > 2 and sd[2]:
+                                                gn.add(sd[2])
+                        if gn:
+                            dec[f] = sorted(gn)
+    R.floor("C19.f", "option fields encoded into flags", len(enc), 5)
+    R.floor("C19.f", "option fields decoded from flags", len(dec), 5)
+    for f in sorted(set(enc) | set(dec)):
+        e, d = enc.get(f), dec.get(f)
+        R.ob("C19.f", into, "field:" + f, e is not None and d == [e],
+             "%s <-> %s in both directions" % (f, e) if e is not None and d == [e] else
+             "option `%s` is written to flags as %s but read back from %s" % (f, e, d))
+    used = [k for ks in dec.values() for k in ks]
+    R.ob("C19.f", into, "injective", len(used) == len(set(used)), "each flag constant feeds one option: %s" % sorted(used))
+
+
 def check(ctx, R):
     holder = {}
     R.run("C19.a", lambda R, c: holder.setdefault("h", rule_a(R, c)), ctx)
     R.run("C19.b", rule_b, ctx)
     R.run("C19.c", rule_c, ctx)
     R.run("C19.e", rule_e, ctx)
+    R.run("C19.f", rule_f, ctx)
     if "h" in holder:
         R.run("C19.d", rule_d, ctx, holder["h"])
     return {}
